@@ -1933,7 +1933,7 @@ def _b_setattr(it, args, kwargs, e, func):
     if len(args) == 3 and isinstance(args[1], str) and isinstance(args[0], Obj):
         args[0].attrs[args[1]] = args[2]
         return None
-    raise AnalysisError("%s: setattr(%s) with a target or name the interpreter cannot follow" % (func.loc(e) if func is not None else "?", ", ".join(show(a)[:30] for a in args)))
+    return Sym("call", "setattr", *args)
 
 
 def _b_hasattr(it, args, kwargs, e, func):
